@@ -385,7 +385,7 @@ TAIL_FORMS = [
     ('letrec', '(letrec ((y 1)) (g K))'), ('named-let', '(let loop ((i 0)) (g K))'),
     ('begin', '(begin 1 (g K))'), ('nested', '(if x (let ((y 1)) (cond (y (begin (when y (g K)))) (else 0))) (g K))'),
     ('lambda-application', '((lambda (y) (g y)) K)'),
-    ('apply', '(apply g (list K))'), ('apply-spread', '(apply g K (list))'),
+    ('apply', '(apply g (list K))'), ('apply-spread', '(apply g K (list))'), ('eval', "(eval (list 'callee K))"),
 ]
 NON_TAIL_WITNESS = ('non-tail-operand', '(g (g K))')          # the inner call is NOT a tail call: its stack must be higher (vacuity witness)
 
@@ -490,7 +490,7 @@ def native_form(replay, req):
         out = replay.ask('eval %s' % hexs('((lambda (g x) %s) callee %s)' % (body.replace('K', '7'), x)))
         return out, replay.ask('trace')
     of, tf = depth(src); od, td = depth('(g K)')
-    if of.startswith('ERR') and 'car' not in unhexs(of.split()[1]):
+    if of.startswith('ERR') and 'ExpectedPairButFound(Number(Fixnum(7)))' not in unhexs(of.split()[1]):
         return None, 'natively the form fails before the callee is reached: %s' % unhexs(of.split()[1])
     if tf == 'NOTRACE' or td == 'NOTRACE': return None, 'no failure inside the callee natively (%s / %s): call not reached with x=%s' % (of[:40], od[:40], x)
     return tf != td, 'stack trace inside the callee: %s through %s, %s through a direct tail call (x=%s)' % (tf, src, td, x)
